@@ -109,5 +109,5 @@ func runFailWrite(rec *recorder, sc *Scenario) error {
 		return nil // FailAt beyond the last write: an ordinary run
 	}
 	// trace 1: recovery on what is on disk
-	return recoverOnDisk(rec, sc, store, id, 1, sc.FailAt-1, !finished)
+	return recoverOnDisk(rec, sc, store, id, 1, max(0, sc.FailAt-1), !finished)
 }
